@@ -813,6 +813,9 @@ class FileStorage(
             self._file.seek(self._pos)
             tl = self._thl + dlen
 
+            # From here on the data file may hold bytes of this transaction:
+            # _abort() must truncate even if the cleanup below fails, too.
+            self._nextpos = self._pos + (tl + 8)
             try:
                 h = TxnHeader(self._tid, tl, "c", len(user),
                               len(descr), len(ext))
@@ -829,7 +832,6 @@ class FileStorage(
                 self._file.truncate(self._pos)
                 self._files.flush()
                 raise
-            self._nextpos = self._pos + (tl + 8)
             return self._resolved
 
     def tpc_finish(self, transaction, f=None):
